@@ -86,6 +86,10 @@ package schedule
 //@ ensures [returns-only-if-first] !old(s.started) && s.started
 //@ modifies s.started
 
+// The start instant is published by startOnce: it is written only inside startOnce.Do and read only after this
+// call has passed through startOnce.Do, which orders the read after the write for every concurrent caller.
+//@ guarded_by doAtSchedule.start StartSync.startOnce
+
 //@ func (s *doAtSchedule) Next
 //@ props C01 C02
 //@ requires s.started == once(s.startOnce)
